@@ -91,6 +91,9 @@ def evaluate__comparison_operators(self: XPathToken, context: ta.ContextType = N
     op = OPERATORS_MAP[self.symbol]
     try:
         return any(op(x1, x2) for x1, x2 in self.iter_comparison_data(context))
+    except OverflowError as err:
+        # an integer operand too large to be converted to xs:double
+        raise self.error('FOAR0002', err) from None
     except (TypeError, ValueError) as err:
         if isinstance(context, XPathSchemaContext):
             return False
